@@ -420,6 +420,52 @@ class Item:
         self.toks[o + len(ins)].ws = "\n"
         self.log.append({"kind": "contract", "at": "loop:%d" % k, "text": text.strip()})
 
+    def insert_at_loop_end(self, k, text):
+        ls = self.loops()
+        if k < 1 or k > len(ls):
+            raise LostAnchor("loop ordinal %d not found in %s" % (k, self.path))
+        o = self.loop_body_open(ls[k - 1])
+        c = match_close(self.toks, o)
+        ins = tokenize("\n" + text + "\n")
+        for t in ins:
+            t.line = 0
+        # the body may end in a tail expression without `;` (e.g. an if/else chain): that is
+        # still a statement position for a following proof block only if it is unit-typed and
+        # block-like, which holds for every loop body (a loop body has type ())
+        self.toks[c:c] = ins
+        self.toks[c + len(ins)].ws = "\n"
+        self.log.append({"kind": "contract", "at": "loop-end:%d" % k, "text": text.strip()})
+
+    def insert_after_stmt(self, anchor_src, nth, text):
+        """insert after the `;` that ends the statement containing the nth occurrence of anchor"""
+        pat = texts(tokenize(anchor_src))
+        hits = find_seq(self.toks, pat)
+        if nth < 1 or nth > len(hits):
+            raise LostAnchor("anchor `%s` #%d not found in %s (%d hits)"
+                             % (" ".join(pat), nth, self.path, len(hits)))
+        j = hits[nth - 1]
+        d = 0
+        while j < len(self.toks):
+            t = self.toks[j].s
+            if t in OPEN:
+                d += 1
+            elif t in CLOSE:
+                d -= 1
+                if d < 0:
+                    raise LostAnchor("statement with anchor `%s` #%d is a tail expression" % (" ".join(pat), nth))
+            elif t == ";" and d == 0:
+                break
+            j += 1
+        h = j + 1
+        ins = tokenize("\n" + text + "\n")
+        for t in ins:
+            t.line = 0
+        self.toks[h:h] = ins
+        if h + len(ins) < len(self.toks) and not self.toks[h + len(ins)].ws:
+            self.toks[h + len(ins)].ws = "\n"
+        self.log.append({"kind": "contract", "at": "after-stmt:" + " ".join(pat) + "#%d" % nth,
+                         "text": text.strip()})
+
     def insert_before(self, anchor_src, nth, text, after=False):
         pat = texts(tokenize(anchor_src))
         hits = find_seq(self.toks, pat)
@@ -479,6 +525,56 @@ class Item:
         self.toks[f:o] = head
         self.log.append({"kind": "desugar-for", "loop": k, "pattern": P, "iter": E,
                          "why": "rustc's own desugaring; Verus `for` cannot contain `continue`"})
+
+    def desugar_match_str(self, nth, eqfn):
+        """match T { "a" => {A} "b" => {B} _ => {Z} }  ==>
+           if eqfn(T, "a") {A} else if eqfn(T, "b") {B} else {Z}
+        Only for a scrutinee that is a plain identifier and arms that are string literals or `_`
+        with block bodies (Rust matches string-literal patterns by string equality, so this is the
+        language's own meaning of the match).  Needed because Verus derives no negative fact in the
+        fall-through arm of a `&str` match."""
+        ms = [i for i, t in enumerate(self.toks) if t.s == "match"]
+        if nth < 1 or nth > len(ms):
+            raise LostAnchor("match #%d not found in %s" % (nth, self.path))
+        m = ms[nth - 1]
+        scrut = self.toks[m + 1].s
+        if not _IDENT.fullmatch(scrut) or self.toks[m + 2].s != "{":
+            raise LostAnchor("match #%d scrutinee is not a plain identifier" % nth)
+        o = m + 2
+        c = match_close(self.toks, o)
+        arms = []
+        i = o + 1
+        while i < c:
+            pat = self.toks[i].s
+            if not (pat == "_" or pat.startswith('"')):
+                raise LostAnchor("match arm pattern %r is not a string literal or `_`" % pat)
+            if not (self.toks[i + 1].s == "=" and self.toks[i + 2].s == ">" and self.toks[i + 3].s == "{"):
+                raise LostAnchor("match arm %r has no block body" % pat)
+            bo = i + 3
+            bc = match_close(self.toks, bo)
+            arms.append((pat, bo, bc))
+            i = bc + 1
+            if i < c and self.toks[i].s == ",":
+                i += 1
+        if not arms or arms[-1][0] != "_" or any(a[0] == "_" for a in arms[:-1]):
+            raise LostAnchor("match must end in exactly one `_` arm")
+        line = self.toks[m].line
+        out = []
+        for k, (pat, bo, bc) in enumerate(arms):
+            if pat == "_":
+                head = tokenize(" else")
+            elif k == 0:
+                head = tokenize("if %s(%s, %s)" % (eqfn, scrut, pat))
+            else:
+                head = tokenize(" else if %s(%s, %s)" % (eqfn, scrut, pat))
+            for t in head:
+                t.line = line
+            out += head + self.toks[bo:bc + 1]
+        out[0].ws = self.toks[m].ws
+        self.toks[m:c + 1] = out
+        self.log.append({"kind": "desugar-match-str", "match": nth, "scrutinee": scrut,
+                         "arms": [a[0] for a in arms], "eq": eqfn,
+                         "why": "string-literal patterns compare by string equality; Verus gives no negative fact in the `_` arm"})
 
     def text(self):
         return render(self.toks).strip() + "\n"
